@@ -515,11 +515,24 @@ func diamondDriver(args []string) error {
 	crc := fl.Bool("crc", false, "CRC-capable stores")
 	shard := fl.Int("shard", 0, "shard index")
 	shards := fl.Int("shards", 1, "number of shards")
+	only := fl.String("labels", "", "comma separated scenario classes to run (default: all)")
 	_ = fl.Parse(args)
+	want := map[string]bool{}
+	for _, l := range strings.Split(*only, ",") {
+		if l = strings.TrimSpace(l); l != "" {
+			want[l] = true
+		}
+	}
 	res := vutil.NewResult("diamond")
 	var all []interface{}
 	labels := map[string]int{}
-	for i, sc := range diamondScenarios(*seed, *thorough) {
+	n := -1
+	for _, sc := range diamondScenarios(*seed, *thorough) {
+		if len(want) > 0 && !want[sc.label] {
+			continue
+		}
+		n++
+		i := n
 		if i%*shards != *shard {
 			continue
 		}
